@@ -119,9 +119,17 @@ def oracle(case: dict) -> Outcome:
     dtype = DTYPES[case.get("dtype", "f32")]
     numel = math.prod(shape)
     fsdp, hsdp = _impls()
-    base = torch.arange(-off, numel + 3 - off, dtype=torch.float64).to(dtype) if off else torch.arange(0, numel + 3, dtype=torch.float64).to(dtype)
-    # shard holds the values start..end-1 (exactly representable for the sizes used) and sits at storage offset off+start
-    shard = base.narrow(0, off + start, end - start) if off else base.narrow(0, start, end - start)
+    step = int(case.get("stride", 1))
+    if step == 1:
+        base = torch.arange(-off, numel + 3 - off, dtype=torch.float64).to(dtype) if off else torch.arange(0, numel + 3, dtype=torch.float64).to(dtype)
+        # shard holds the values start..end-1 (exactly representable for the sizes used) and sits at storage offset off+start
+        shard = base.narrow(0, off + start, end - start) if off else base.narrow(0, start, end - start)
+    else:
+        # a 1-D shard that is itself a strided view (every step-th element of a larger buffer): still a flat tensor holding start..end-1
+        buf = torch.full(((numel + 3 + off) * step,), -1.0, dtype=torch.float64).to(dtype)
+        lane = buf[off::step][: numel + 3]
+        lane.copy_(torch.arange(0, numel + 3, dtype=torch.float64).to(dtype))
+        shard = lane.narrow(0, start, end - start)
     expect_vals = shard.clone()
     ok1, r1 = call_sut(out, "C15.call", "FSDP._split_tensor_block_recovery", lambda: fsdp(shard, torch.Size(shape), start, end))
     ok2, r2 = call_sut(out, "C15.call", "HSDP._split_tensor_block_recovery", lambda: hsdp(shard, torch.Size(shape), start, end))
@@ -155,9 +163,9 @@ def oracle(case: dict) -> Outcome:
             if t.untyped_storage().data_ptr() != shard.untyped_storage().data_ptr():
                 out.fail("C15.i.view", f"{name}: block does not share the shard's storage")
                 break
-            if t.storage_offset() != shard.storage_offset() + (a - start) or not t.is_contiguous():
-                out.fail("C15.ii.partition", f"{name}: block is not the next contiguous piece of the shard",
-                         observed=[t.storage_offset(), list(t.stride())], expected=shard.storage_offset() + (a - start))
+            if t.storage_offset() != shard.storage_offset() + (a - start) * shard.stride(0) or (step == 1 and not t.is_contiguous()):
+                out.fail("C15.ii.partition", f"{name}: block is not the next piece of the shard (storage offset / layout)",
+                         observed=[t.storage_offset(), list(t.stride())], expected=shard.storage_offset() + (a - start) * shard.stride(0))
                 break
             if k == 0:
                 out.fail("C15.iii.slab", f"{name}: empty block returned")
@@ -195,11 +203,20 @@ def oracle(case: dict) -> Outcome:
             ref = reference_cuts(shape, start, end)
             if [(a_, b_) for a_, b_, _ in ref] != _cuts(r, start):
                 out.classes.append("cuts_differ_from_constructive_reference")
-    # writes through a returned view reach the shard (never copies)
-    if end > start and r1 and not out.failures and shard.dtype.is_floating_point:
-        r1[0].view(-1)[0] = -7.0
-        if shard[0].item() != -7.0:
-            out.fail("C15.i.view", "fsdp: writing to the first block does not modify the shard")
+    # writes through every returned block reach the shard at the block's position (never copies)
+    if end > start and not out.failures and shard.dtype.is_floating_point:
+        for name, r in (("fsdp", r1), ("hsdp", r2)):
+            pos = 0
+            for bi, t in enumerate(r):
+                k = t.numel()
+                t.fill_(-7.0 - bi)
+                seg = shard.narrow(0, pos, k)
+                if not bool((seg == -7.0 - bi).all()):
+                    out.fail("C15.i.view", f"{name}: writing to a returned block does not modify the shard (the block is a copy)", f"block {bi} shape {list(t.shape)} shard stride {shard.stride(0)}")
+                    break
+                pos += k
+        if step != 1:
+            out.classes.append("strided_shard")
     return out
 
 
@@ -264,7 +281,7 @@ def enumerate_cases(tier: str, i: int, n: int) -> Iterator[dict]:
         off = (idx % 3)  # 0, 1 or 2 elements of storage offset: the shard is itself a view
         for start in range(numel + 1):
             for end in range(start, numel + 1):
-                yield {"shape": list(shape), "start": start, "end": end, "offset": off, "dtype": "f32"}
+                yield {"shape": list(shape), "start": start, "end": end, "offset": off, "dtype": "f32", "stride": 1 + (start + end + idx) % 2 * (idx % 3 == 1)}
 
 
 def strategy():
@@ -294,7 +311,7 @@ def strategy():
         pick = st.one_of(st.integers(0, numel), st.sampled_from(sorted(specials)))
         a, b = draw(pick), draw(pick)
         start, end = min(a, b), max(a, b)
-        return {"shape": shape, "start": start, "end": end, "offset": draw(st.integers(0, 3)),
+        return {"shape": shape, "start": start, "end": end, "offset": draw(st.integers(0, 3)), "stride": draw(st.sampled_from([1, 1, 1, 2, 3])),
                 "dtype": draw(st.sampled_from(["f32", "f64", "bf16", "i64"])) if numel < 250 else draw(st.sampled_from(["f32", "f64", "i64"]))}
 
     return cases()
